@@ -67,6 +67,8 @@ type chk struct {
 	den   int64
 	tol   *big.Rat // absolute tolerance (exact rational from the specification)
 	bad   bool
+	empty bool   // the instance has a zero dimension
+	tag   string // appended to the kind of value failures (root-cause classification)
 }
 
 func (k *chk) fail(routine, kind, format string, a ...any) {
@@ -112,7 +114,7 @@ func (k *chk) cmpMat(routine, what string, got []float64, ld int, exp imat, den 
 			k.sum.Count("elements_compared", 1)
 			if !ok {
 				if nbad == 0 {
-					k.fail(routine, "value", "%s[%d][%d] = %v, specification says %d/%d (tolerance %s)", what, i, j, got[i*ld+j], exp[i][j], den, k.tol.FloatString(25))
+					k.fail(routine, "value"+k.tag, "%s[%d][%d] = %v, specification says %d/%d (tolerance %s)", what, i, j, got[i*ld+j], exp[i][j], den, k.tol.FloatString(25))
 				}
 				nbad++
 			}
